@@ -1,6 +1,6 @@
 use alloc::vec;
 use alloc::vec::Vec;
-use cobs::{decode, encode, max_encoding_length};
+use cobs::{encode, max_encoding_length, CobsDecoder};
 
 use bxcan::{Data, ExtendedId, Frame as BxFrame, Id};
 
@@ -157,9 +157,14 @@ impl Frame {
     /// bytes 5 - 12:   DATA (frame data)
     pub fn from_usart_frame(encoded: Vec<u8>) -> Result<Self, FrameError> {
         let mut frame = vec![0; encoded.len()];
-        match decode(&encoded[..], &mut frame[..]) {
-            Ok(n) => frame.truncate(n),
-            Err(_) => return Err(FrameError::CobsError),
+        let mut decoder = CobsDecoder::new(&mut frame[..]);
+        match decoder.push(&encoded[..]) {
+            Ok(None) => {}
+            _ => return Err(FrameError::CobsError),
+        }
+        match decoder.push(&[0x00]) {
+            Ok(Some((n, _))) => frame.truncate(n),
+            _ => return Err(FrameError::CobsError),
         }
 
         if frame.len() < 5 || frame.len() != frame[4] as usize + 5 {
